@@ -3,6 +3,12 @@ COQ_PROPS = "Properties/C11.v"
 JUDGE = "Judge.C11"
 DRIVER = "c11"
 SHARD = 60
+# the property says the store's operations do not race on memory: the Go runtime detecting an
+# unsynchronised map access in the driver's concurrent phases is a failing history, not a broken harness
+CRASH_VIOLATION = [
+    (r"fatal error: concurrent map (read and map write|writes|iteration and map write)",
+     "the Go runtime aborted the concurrent store run with an unsynchronised map access (memory race in the store)"),
+]
 
 
 def driver_args(tier, seed, phase):
